@@ -1,7 +1,12 @@
 import CogentModel.Json
+import CogentModel.Model.Composable
+import Driver.C14Codec
 open CogentModel
 
-def handle (cmd : String) (_j : J) : Except String J :=
-  throw s!"unknown command {cmd}"
+def handle (cmd : String) (j : J) : Except String J :=
+  match cmd with
+  | "call" => C14Codec.handleCall j
+  | "apply" => C14Codec.handleApply j
+  | _ => throw s!"unknown command {cmd}"
 
 def main : IO Unit := driverLoop handle
